@@ -13,5 +13,5 @@ def adapter_links(ctx, R, counter, head=None):
     if head is not None:
         c15.r15_4(ctx, R, head)
         ctx.rule("R15.4", "see C15 R15.4 (shared link): the bounded insert refuses only when full")
-    c02.r2_1(ctx, R)
+    c02.r2_1(ctx, R, only_in=c02.COLLECTIONS)
     ctx.rule("R2.1", "see C02 R2.1 (shared link): a finished future is removed and its output returned")
